@@ -26,7 +26,7 @@ SPEC = dict(
         # the same command statements dispatched again and again (the start node runs three times) while what they read changes
         dict(family="dispatch", n=(30, 400), paths=(3, 5), calls=40,
              label="YarnTrace: command statements dispatched repeatedly (pending, at the head of option bodies)")],
-    nontrivial=lambda c: sum(1 for b in c["bodies"] for s in b if s["k"] == "cmd" and s["elems"][0].get("s") in ("cpend", "cfail")) >= 1,
+    nontrivial=lambda c: sum(1 for b in c["bodies"] for s in b if s["k"] == "cmd" and s["elems"] and s["elems"][0].get("s") in ("cpend", "cfail")) >= 1,
     rule="scripts with up to several commands (top level, in option bodies, before/after lines and jumps; complete on return, failing on "
          "return, or pending): TLC enumerates every completion schedule (0..2 polls answered waiting, then nil or an error) and every "
          "choice path; replayed with raw handlers whose channel the harness fills; then converted handlers of every supported shape "
